@@ -19,7 +19,7 @@
 From Coq Require Import List Bool ZArith Znumtheory.
 From Bec2 Require Import Base.Result Base.Modp Gen.EcFormulas Gen.Curves Model.Ec
   Proofs.EcFormulaProofs Proofs.EcNafProofs Proofs.EcMulProofs Proofs.EcMulAddProofs Proofs.EcTotalProofs
-  Proofs.EcParams
+  Proofs.EcdhGuardProofs   Proofs.EcParams
   Proofs.EcSmall Proofs.EcSmallMul Proofs.EcSmallMulAdd Proofs.EcSmallEcdh.
 Import ListNotations.
 Open Scope Z_scope.
@@ -265,6 +265,31 @@ Theorem C17_ecdh_value : forall p a inG gadd gneg, ec_group p a inG gadd gneg ->
   end.
 Proof. exact ecdh_shared_correct. Qed.
 Print Assumptions C17_ecdh_value.
+
+(* The guards of ECDH._get_shared_secret (hand model ecdh_get_shared; no hypothesis): a
+   secret is produced ONLY when a private key and a public key are loaded and private
+   key, ECDH object and received public key are on one curve (Curve.__eq__: same p, a and b
+   equal mod p, equal generators); then it is ecdh_shared of that point and scalar.  A
+   missing key is NoKeyError, any curve mismatch (or no curve) InvalidCurveError. *)
+Theorem C17_ecdh_guard : forall cur priv pub s,
+  ecdh_get_shared cur priv pub = Ok (Secret s) ->
+  exists c cpriv d cpub Q,
+    cur = Some c /\ priv = Some (cpriv, d) /\ pub = Some (cpub, Q) /\
+    curve_eqb cpriv c = true /\ curve_eqb c cpub = true /\
+    c_p cpriv = c_p c /\ c_p c = c_p cpub /\
+    eqm (c_p c) (c_a cpriv) (c_a c) /\ eqm (c_p c) (c_a c) (c_a cpub) /\
+    eqm (c_p c) (c_b cpriv) (c_b c) /\ eqm (c_p c) (c_b c) (c_b cpub) /\
+    ecdh_shared (c_p cpub) (c_a cpub) Q d = Ok (Some s).
+Proof. exact ecdh_guard. Qed.
+Print Assumptions C17_ecdh_guard.
+
+Theorem C17_ecdh_guard_errors : forall cur priv pub,
+  (priv = None \/ pub = None -> ecdh_get_shared cur priv pub = Ok NoKeyError) /\
+  (forall cpriv d cpub Q, priv = Some (cpriv, d) -> pub = Some (cpub, Q) ->
+     (cur = None \/ exists c, cur = Some c /\ (curve_eqb cpriv c = false \/ curve_eqb c cpub = false)) ->
+     ecdh_get_shared cur priv pub = Ok InvalidCurveError).
+Proof. exact ecdh_guard_errors. Qed.
+Print Assumptions C17_ecdh_guard_errors.
 
 (* Totality: under the same hypothesis the models return (no fuel exhaustion of the extended
    Euclid / table / NAF loops, no inverse failure), so the theorems above are not vacuous:
